@@ -251,6 +251,10 @@ def structBad (op : Op) : Bool :=
    | .nhg g => g == 0 || op.pl.nhs.isEmpty || op.pl.nhs.contains 0
    | _ => op.pl.grp == 0)
 
+/-- a top-level entry that names, for its group, a network instance the RIB does not have -/
+def unknownGrpNI (st : RibSt) (op : Op) : Bool :=
+  op.key.isTop && op.pl.grpNI != "" && !(st.model.nis.contains op.pl.grpNI)
+
 def handleObsPend (st : RibSt) (ids : List Nat) : RibSt :=
   let st := { st with implPend := ids }
   -- C01 monitor: an operation answered FAILED is not kept by the server
@@ -261,7 +265,7 @@ def handleObsPend (st : RibSt) (ids : List Nat) : RibSt :=
   -- C12 monitor: an operation that can never be valid must not be held
   let st := ids.foldl (fun st id =>
     match st.ops.get? id with
-    | some op => if structBad op then st.monfail "c12" s!"malformed operation {id} is held instead of being answered FAILED" else st
+    | some op => if structBad op || (op.ty != .delete && unknownGrpNI st op) then st.monfail "c12" s!"malformed operation {id} is held instead of being answered FAILED" else st
     | none => st) st
   -- C02 monitor: no held operation is resolvable (or failing) in the implementation's own state
   let implRib : Rib := { st.model with ents := st.implEnts, pend := [] }
